@@ -1,8 +1,9 @@
 (* C40 - Catalog persistence round-trips and survives crashes during DDL.
    Property theorems only.  Model/Catalog.v is a hand transcription of the binary format of
    src/schema/persistence.rs, Model/CatalogDisk.v of what CatalogPersistence::save does to the
-   file system (in place) and of the proposed repair (temporary file + rename); both are tied to
-   the code by the correspondence run (Corr/C40.v). *)
+   file system (temporary file + rename since /repo 5a0cf56; in place before: historical); both
+   are tied to the code by the correspondence run (Corr/C40.v), the save protocol also by the
+   io_event trace of every real save in it. *)
 From Coq Require Import ZArith List Bool.
 From TV Require Import Lib.MachInt Model.Catalog Model.CatalogDisk Proof.Catalog Proof.CatalogFuel Proof.CatalogDisk.
 Import ListNotations.
@@ -12,8 +13,9 @@ Open Scope Z_scope.
 
 (* Every catalog within the field widths of the format (wf_catalog: names and texts valid UTF-8 of
    < 64 KiB, counts and ids inside their u16/u32/u64 fields, names unique per HashMap) that is
-   outside the two known classes: save then load into Catalog::new() gives back every schema with
-   the same id and the same tables, columns, types, constraints, defaults, keys, indexes, ids. *)
+   outside the two known classes -- user-created schemas included (since /repo 0f25949): save
+   then load into Catalog::new() gives back every schema with the same id and the same tables,
+   columns, types, constraints, defaults, keys, indexes, ids, and no other schema. *)
 Theorem catalog_roundtrip :
   forall c, wf_catalog c = true -> file_fits c = true -> codec_class c = 0 ->
     exists f c', save_file c = Some f /\ load_file f = Ok c' /\ forall n, find_schema c' n = find_schema c n.
@@ -26,11 +28,10 @@ Theorem serialize_deserialize_roundtrip :
                   /\ forall n, find_schema c' n = find_schema c n.
 Proof. exact serialize_deserialize_l. Qed.
 
-(* known class 2 made exact: with only the built-in schemas, what comes back is the catalog with
-   every expression index column turned into the column "" and every WHERE clause dropped --
-   nothing else is lost *)
+(* known class 2 (F-C40-3) made exact: what comes back is the catalog with every expression index
+   column turned into the column "" and every WHERE clause dropped -- nothing else is lost *)
 Theorem catalog_roundtrip_lossy :
-  forall c, wf_catalog c = true -> file_fits c = true -> builtin_only c = true ->
+  forall c, wf_catalog c = true -> file_fits c = true -> builtins_ok c = true ->
     exists f c', save_file c = Some f /\ load_file f = Ok c'
                  /\ forall n, find_schema c' n = find_schema (lossy_catalog c) n.
 Proof. exact catalog_roundtrip_lossy_l. Qed.
@@ -41,34 +42,65 @@ Theorem expr_index_lost_refuted :
                  /\ find_schema c' name_root <> find_schema c name_root.
 Proof. exact expr_index_lost_refuted_l. Qed.
 
-(* known class 1 made exact: any catalog that contains a schema other than "root" and
-   "turdb_catalog" is saved without an error and the file can never be loaded again *)
-Theorem user_schema_unloadable :
-  forall c, wf_catalog c = true -> file_fits c = true -> has_user_schema c = true ->
-    exists f, save_file c = Some f /\ load_file f = Err.
-Proof. exact user_schema_unloadable_l. Qed.
+(* known class 1 (F-C40-4) made exact: whatever the catalog, "root" and "turdb_catalog" exist
+   after a load -- a dropped built-in schema is back *)
+Theorem builtin_schemas_reappear :
+  forall c n, wf_catalog c = true -> file_fits c = true -> (n = name_root \/ n = name_syscat) ->
+    exists f c', save_file c = Some f /\ load_file f = Ok c' /\ find_schema c' n <> None.
+Proof. exact builtin_schemas_reappear_l. Qed.
 
-Theorem user_schema_refuted :
-  exists c f, wf_catalog c = true /\ file_fits c = true /\ codec_class c = 1
-              /\ save_file c = Some f /\ load_file f = Err.
-Proof. exact user_schema_refuted_l. Qed.
+Theorem dropped_root_reappears_refuted :
+  exists c f c', wf_catalog c = true /\ file_fits c = true /\ codec_class c = 1
+                 /\ save_file c = Some f /\ load_file f = Ok c'
+                 /\ find_schema c name_root = None /\ find_schema c' name_root <> None.
+Proof. exact dropped_root_reappears_refuted_l. Qed.
 
 (* the deserializer's fuel (1 + bytes left) always suffices: OutOfFuel is never an outcome *)
 Theorem deserialize_fuel_enough :
   forall bs c, deserialize bs c <> OutOfFuel.
 Proof. exact deserialize_fuel_enough_l. Qed.
 
-(* ---------------------------------------------------------------- crash half *)
+(* ---------------------------------------------------------------- crash half: the code as it is *)
 
-(* a catalog file cut anywhere before its end does not load *)
+(* CatalogPersistence::save since /repo 5a0cf56 = save_atomic (create + write a temporary file,
+   sync it, rename it over the catalog, fsync the directory): at EVERY crash point, killed or power
+   lost, with or without a stale temporary file from an earlier crash, the catalog path holds the
+   complete old or the complete new file *)
+Theorem atomic_replace_safe :
+  forall old stale h b k j m v,
+    crash_view m (run_to (save_atomic h b) k j (init_fs old stale)) p_catalog v ->
+    v = Some old \/ v = Some (h ++ b).
+Proof. exact atomic_replace_safe_l. Qed.
+
+(* the property: no table or index that both the old and the new catalog contain is lost,
+   at any crash point of the catalog save inside a DDL statement, in either crash mode *)
+Theorem ddl_crash_keeps_old :
+  forall old oldf stale h b k j m v,
+    keeps_old old (load_file oldf) = true -> keeps_old old (load_file (h ++ b)) = true ->
+    crash_view m (run_to (save_atomic h b) k j (init_fs oldf stale)) p_catalog v ->
+    keeps_old old (load_view v) = true.
+Proof. exact atomic_replace_keeps_old_l. Qed.
+
+(* ... and once save has returned (directory synced), the new file is what survives *)
+Theorem atomic_replace_durable :
+  forall old stale h b k j m v,
+    (6 <= k)%nat ->
+    crash_view m (run_to (save_atomic h b) k j (init_fs old stale)) p_catalog v -> v = Some (h ++ b).
+Proof. exact atomic_replace_durable_l. Qed.
+
+(* a catalog file cut anywhere before its end does not load (why a torn file must never be
+   reachable under the catalog's name) *)
 Theorem load_prefix_err :
   forall c body n, 0 <= zlen body < 2 ^ 64 -> (n < length (header c (zlen body) ++ body))%nat ->
     load_file (firstn n (header c (zlen body) ++ body)) = Err.
 Proof. exact load_prefix_err_l. Qed.
 
-(* CatalogPersistence::save as it is (File::create on the live file, two writes, sync): for
-   EVERY new catalog and every crash point after the truncation and before the last byte of the
-   body, what a killed process leaves does not load -- Database::open fails, every table is lost *)
+(* ---------------------------------------------------------------- crash half: historical
+   CatalogPersistence::save before /repo 5a0cf56 = save_inplace (File::create on the live file,
+   two writes, sync): finding F-C40-1, fixed.  Kept as theorems about that event list. *)
+
+(* for EVERY new catalog and every crash point after the truncation and before the last byte of
+   the body, what a killed process left did not load -- Database::open failed, every table lost *)
 Theorem inplace_crash_unloadable :
   forall c_new h b old k j,
     save_parts c_new = Some (h, b) -> file_fits c_new = true -> inside_rewrite h b k j = true ->
@@ -81,8 +113,8 @@ Theorem inplace_crash_loses_all :
     keeps_old old (load_view (kill_view (run_to (save_inplace h b) k j (init_fs oldf None)) p_catalog)) = false.
 Proof. exact inplace_crash_loses_all_l. Qed.
 
-(* the property on a concrete DDL statement (t1 with an index exists, CREATE TABLE t2): refuted *)
-Theorem ddl_crash_keeps_old_refuted :
+(* the property on a concrete DDL statement (t1 with an index exists, CREATE TABLE t2) was refuted *)
+Theorem inplace_ddl_crash_keeps_old_refuted :
   exists old new oldf h b k j,
     wf_catalog old = true /\ wf_catalog new = true /\ codec_class old = 0 /\ codec_class new = 0
     /\ save_file old = Some oldf /\ save_parts new = Some (h, b)
@@ -90,9 +122,8 @@ Theorem ddl_crash_keeps_old_refuted :
     /\ keeps_old old (load_view (kill_view (run_to (save_inplace h b) k j (init_fs oldf None)) p_catalog)) = false.
 Proof. exact ddl_crash_keeps_old_refuted_l. Qed.
 
-(* outside the known class (crash before the truncation or after the body is complete) the file is
-   the old or the new one, so nothing that both of them contain is lost *)
-Theorem ddl_crash_keeps_old :
+(* outside those crash points the file was the old or the new one *)
+Theorem inplace_ddl_crash_keeps_old_outside :
   forall old oldf h b k j,
     keeps_old old (load_file oldf) = true -> keeps_old old (load_file (h ++ b)) = true ->
     inside_rewrite h b k j = false ->
@@ -106,34 +137,11 @@ Theorem inplace_powerloss_view :
     v = Some old \/ exists n, v = Some (firstn n (h ++ b)).
 Proof. exact inplace_powerloss_view_l. Qed.
 
-(* the repair (create + write a temporary file, sync it, rename it over the catalog, sync the
-   directory): at EVERY crash point, killed or power lost, with or without a stale temporary file
-   from an earlier crash, the catalog path holds the complete old or the complete new file *)
-Theorem atomic_replace_safe :
-  forall old stale h b k j m v,
-    crash_view m (run_to (save_atomic h b) k j (init_fs old stale)) p_catalog v ->
-    v = Some old \/ v = Some (h ++ b).
-Proof. exact atomic_replace_safe_l. Qed.
-
-Theorem atomic_replace_keeps_old :
-  forall old oldf stale h b k j m v,
-    keeps_old old (load_file oldf) = true -> keeps_old old (load_file (h ++ b)) = true ->
-    crash_view m (run_to (save_atomic h b) k j (init_fs oldf stale)) p_catalog v ->
-    keeps_old old (load_view v) = true.
-Proof. exact atomic_replace_keeps_old_l. Qed.
-
-(* ... and once it has returned, the new file is what survives *)
-Theorem atomic_replace_durable :
-  forall old stale h b k j m v,
-    (6 <= k)%nat ->
-    crash_view m (run_to (save_atomic h b) k j (init_fs old stale)) p_catalog v -> v = Some (h ++ b).
-Proof. exact atomic_replace_durable_l. Qed.
-
 (* ---------------------------------------------------------------- non-vacuity *)
 Example c40_hypotheses_satisfiable :
   wf_catalog ex_new = true /\ file_fits ex_new = true /\ codec_class ex_new = 0
-  /\ wf_catalog ex_expr_catalog = true /\ builtin_only ex_expr_catalog = true /\ catalog_plain ex_expr_catalog = false
-  /\ wf_catalog ex_user_catalog = true /\ has_user_schema ex_user_catalog = true
+  /\ wf_catalog ex_expr_catalog = true /\ builtins_ok ex_expr_catalog = true /\ catalog_plain ex_expr_catalog = false
+  /\ wf_catalog ex_user_catalog = true /\ file_fits ex_user_catalog = true /\ codec_class ex_user_catalog = 0
   /\ (exists h b, save_parts ex_new = Some (h, b)
         /\ inside_rewrite h b 1 0 = true /\ inside_rewrite h b 2 17 = true
         /\ inside_rewrite h b 0 0 = false /\ inside_rewrite h b 3 0 = false
@@ -150,34 +158,34 @@ Proof. exact c40_crash_views_exist_l. Qed.
 
 Check catalog_roundtrip : forall c, wf_catalog c = true -> file_fits c = true -> codec_class c = 0 -> exists f c', save_file c = Some f /\ load_file f = Ok c' /\ forall n, find_schema c' n = find_schema c n.
 Check serialize_deserialize_roundtrip : forall c, wf_catalog c = true -> codec_class c = 0 -> exists bs c', serialize c = Some bs /\ deserialize bs base_catalog = Ok c' /\ forall n, find_schema c' n = find_schema c n.
-Check catalog_roundtrip_lossy : forall c, wf_catalog c = true -> file_fits c = true -> builtin_only c = true -> exists f c', save_file c = Some f /\ load_file f = Ok c' /\ forall n, find_schema c' n = find_schema (lossy_catalog c) n.
+Check catalog_roundtrip_lossy : forall c, wf_catalog c = true -> file_fits c = true -> builtins_ok c = true -> exists f c', save_file c = Some f /\ load_file f = Ok c' /\ forall n, find_schema c' n = find_schema (lossy_catalog c) n.
 Check expr_index_lost_refuted : exists c f c', wf_catalog c = true /\ file_fits c = true /\ codec_class c = 2 /\ save_file c = Some f /\ load_file f = Ok c' /\ find_schema c' name_root <> find_schema c name_root.
-Check user_schema_unloadable : forall c, wf_catalog c = true -> file_fits c = true -> has_user_schema c = true -> exists f, save_file c = Some f /\ load_file f = Err.
-Check user_schema_refuted : exists c f, wf_catalog c = true /\ file_fits c = true /\ codec_class c = 1 /\ save_file c = Some f /\ load_file f = Err.
+Check builtin_schemas_reappear : forall c n, wf_catalog c = true -> file_fits c = true -> (n = name_root \/ n = name_syscat) -> exists f c', save_file c = Some f /\ load_file f = Ok c' /\ find_schema c' n <> None.
+Check dropped_root_reappears_refuted : exists c f c', wf_catalog c = true /\ file_fits c = true /\ codec_class c = 1 /\ save_file c = Some f /\ load_file f = Ok c' /\ find_schema c name_root = None /\ find_schema c' name_root <> None.
 Check deserialize_fuel_enough : forall bs c, deserialize bs c <> OutOfFuel.
+Check atomic_replace_safe : forall old stale h b k j m v, crash_view m (run_to (save_atomic h b) k j (init_fs old stale)) p_catalog v -> v = Some old \/ v = Some (h ++ b).
+Check ddl_crash_keeps_old : forall old oldf stale h b k j m v, keeps_old old (load_file oldf) = true -> keeps_old old (load_file (h ++ b)) = true -> crash_view m (run_to (save_atomic h b) k j (init_fs oldf stale)) p_catalog v -> keeps_old old (load_view v) = true.
+Check atomic_replace_durable : forall old stale h b k j m v, (6 <= k)%nat -> crash_view m (run_to (save_atomic h b) k j (init_fs old stale)) p_catalog v -> v = Some (h ++ b).
 Check load_prefix_err : forall c body n, 0 <= zlen body < 2 ^ 64 -> (n < length (header c (zlen body) ++ body))%nat -> load_file (firstn n (header c (zlen body) ++ body)) = Err.
 Check inplace_crash_unloadable : forall c_new h b old k j, save_parts c_new = Some (h, b) -> file_fits c_new = true -> inside_rewrite h b k j = true -> load_view (kill_view (run_to (save_inplace h b) k j (init_fs old None)) p_catalog) = Err.
 Check inplace_crash_loses_all : forall old c_new h b oldf k j, save_parts c_new = Some (h, b) -> file_fits c_new = true -> inside_rewrite h b k j = true -> keeps_old old (load_view (kill_view (run_to (save_inplace h b) k j (init_fs oldf None)) p_catalog)) = false.
-Check ddl_crash_keeps_old_refuted : exists old new oldf h b k j, wf_catalog old = true /\ wf_catalog new = true /\ codec_class old = 0 /\ codec_class new = 0 /\ save_file old = Some oldf /\ save_parts new = Some (h, b) /\ keeps_old old (load_file oldf) = true /\ keeps_old old (load_file (h ++ b)) = true /\ keeps_old old (load_view (kill_view (run_to (save_inplace h b) k j (init_fs oldf None)) p_catalog)) = false.
-Check ddl_crash_keeps_old : forall old oldf h b k j, keeps_old old (load_file oldf) = true -> keeps_old old (load_file (h ++ b)) = true -> inside_rewrite h b k j = false -> keeps_old old (load_view (kill_view (run_to (save_inplace h b) k j (init_fs oldf None)) p_catalog)) = true.
+Check inplace_ddl_crash_keeps_old_refuted : exists old new oldf h b k j, wf_catalog old = true /\ wf_catalog new = true /\ codec_class old = 0 /\ codec_class new = 0 /\ save_file old = Some oldf /\ save_parts new = Some (h, b) /\ keeps_old old (load_file oldf) = true /\ keeps_old old (load_file (h ++ b)) = true /\ keeps_old old (load_view (kill_view (run_to (save_inplace h b) k j (init_fs oldf None)) p_catalog)) = false.
+Check inplace_ddl_crash_keeps_old_outside : forall old oldf h b k j, keeps_old old (load_file oldf) = true -> keeps_old old (load_file (h ++ b)) = true -> inside_rewrite h b k j = false -> keeps_old old (load_view (kill_view (run_to (save_inplace h b) k j (init_fs oldf None)) p_catalog)) = true.
 Check inplace_powerloss_view : forall old h b k j v, pl_view (run_to (save_inplace h b) k j (init_fs old None)) p_catalog v -> v = Some old \/ exists n, v = Some (firstn n (h ++ b)).
-Check atomic_replace_safe : forall old stale h b k j m v, crash_view m (run_to (save_atomic h b) k j (init_fs old stale)) p_catalog v -> v = Some old \/ v = Some (h ++ b).
-Check atomic_replace_keeps_old : forall old oldf stale h b k j m v, keeps_old old (load_file oldf) = true -> keeps_old old (load_file (h ++ b)) = true -> crash_view m (run_to (save_atomic h b) k j (init_fs oldf stale)) p_catalog v -> keeps_old old (load_view v) = true.
-Check atomic_replace_durable : forall old stale h b k j m v, (6 <= k)%nat -> crash_view m (run_to (save_atomic h b) k j (init_fs old stale)) p_catalog v -> v = Some (h ++ b).
 
 Print Assumptions catalog_roundtrip.
 Print Assumptions serialize_deserialize_roundtrip.
 Print Assumptions catalog_roundtrip_lossy.
 Print Assumptions expr_index_lost_refuted.
-Print Assumptions user_schema_unloadable.
-Print Assumptions user_schema_refuted.
+Print Assumptions builtin_schemas_reappear.
+Print Assumptions dropped_root_reappears_refuted.
 Print Assumptions deserialize_fuel_enough.
+Print Assumptions atomic_replace_safe.
+Print Assumptions ddl_crash_keeps_old.
+Print Assumptions atomic_replace_durable.
 Print Assumptions load_prefix_err.
 Print Assumptions inplace_crash_unloadable.
 Print Assumptions inplace_crash_loses_all.
-Print Assumptions ddl_crash_keeps_old_refuted.
-Print Assumptions ddl_crash_keeps_old.
+Print Assumptions inplace_ddl_crash_keeps_old_refuted.
+Print Assumptions inplace_ddl_crash_keeps_old_outside.
 Print Assumptions inplace_powerloss_view.
-Print Assumptions atomic_replace_safe.
-Print Assumptions atomic_replace_keeps_old.
-Print Assumptions atomic_replace_durable.
